@@ -43,6 +43,7 @@ func runC13(c *core.Ctx) {
 	c.Rule("C13.parent", "A7: every chain node type that can be marshalled is accepted as a parent on read: it implements chainnodeAlias or isChainNode has a case for it")
 	c.Rule("C13.factoryargs", "A7: registry factories pass constants whose dynamic type is accepted by the type switch of the constructor they reach")
 	c.Rule("C13.override", "A7: a JSON field a pipeline node overrides on write from node field F is parsed back into F on read")
+	c.Rule("C13.flags", "A7: every boolean property flag of a pipeline node (a bool field named …Flag, set by a parameterless or list property such as .keep(), .align(), .all()) is read by the node's pipeline→TICKscript builder: a flag the builder never looks at cannot be rendered, and a rendering that depends on something else (e.g. a non-empty argument list) loses the flag when it is set alone")
 	c.Rule("C13.build", "A7: every name a pipeline→TICKscript builder emits (Pipe/Dot/DotIf/…) exists as chaining method, property method or field on the node type (or a handler type it returns), with fitting arity")
 
 	if pkg := c.P.Pkg("tick/ast"); pkg != nil {
@@ -964,6 +965,80 @@ func c13Build(c *core.Ctx, tp, pp *packages.Package) {
 			return true
 		})
 	}
+	// C13.flags
+	nFlags := 0
+	for _, f := range core.AllFuncs(tp) {
+		if f.Decl.Name.Name != "Build" || f.Decl.Recv == nil || f.Decl.Body == nil {
+			continue
+		}
+		var node *types.Named
+		for _, p := range f.Decl.Type.Params.List {
+			if tv, ok := info.Types[p.Type]; ok {
+				if nt := core.NamedOf(tv.Type); nt != nil && nt.Obj().Pkg() == pp.Types {
+					node = nt
+					break
+				}
+			}
+		}
+		if node == nil {
+			continue
+		}
+		st, ok := node.Underlying().(*types.Struct)
+		if !ok {
+			continue
+		}
+		// fields read in Build and in the same-package functions it calls
+		read := map[*types.Var]bool{}
+		seen := map[*types.Func]bool{}
+		var scan func(body ast.Node)
+		scan = func(body ast.Node) {
+			ast.Inspect(body, func(n ast.Node) bool {
+				switch x := n.(type) {
+				case *ast.SelectorExpr:
+					if sl := info.Selections[x]; sl != nil && sl.Kind() == types.FieldVal {
+						if v, ok := sl.Obj().(*types.Var); ok {
+							read[v] = true
+						}
+					}
+				case *ast.CallExpr:
+					if g := core.Callee(info, x); g != nil && g.Pkg() == tp.Types && !seen[g] {
+						seen[g] = true
+						if d := declOfFunc(c.P, g); d != nil && d.Decl.Body != nil {
+							scan(d.Decl.Body)
+						}
+					}
+				}
+				return true
+			})
+		}
+		scan(f.Decl.Body)
+		var fields []*types.Var
+		var collect func(s *types.Struct, depth int)
+		collect = func(s *types.Struct, depth int) {
+			for i := 0; i < s.NumFields(); i++ {
+				fl := s.Field(i)
+				if fl.Embedded() && depth < 2 {
+					if es, ok := fl.Type().Underlying().(*types.Struct); ok {
+						collect(es, depth+1)
+					} else if pt, ok := fl.Type().Underlying().(*types.Pointer); ok {
+						if es, ok := pt.Elem().Underlying().(*types.Struct); ok {
+							collect(es, depth+1)
+						}
+					}
+					continue
+				}
+				if strings.HasSuffix(fl.Name(), "Flag") && types.Identical(fl.Type(), types.Typ[types.Bool]) && fl.Exported() {
+					fields = append(fields, fl)
+				}
+			}
+		}
+		collect(st, 0)
+		for _, fl := range fields {
+			nFlags++
+			c.Check(read[fl], "C13.flags", core.RecvName(f.Decl)+"."+fl.Name(), f.Decl.Pos(), "the builder of %s never reads %s: a script that sets this flag is rendered without it (the property's arguments, if any, do not tell whether the flag was set)", node.Obj().Name(), fl.Name())
+		}
+	}
+	c.Floor("C13.flags", "boolean property flags of rendered nodes", nFlags, 15)
 	c.Floor("C13.build", "Build functions", nBuild, 30)
 	c.Floor("C13.build", "emitted names", nEmit, 150)
 	c.Sites(nEmit)
